@@ -379,6 +379,9 @@ pub struct TypeCorpus {
     pub seq_templates: BTreeMap<String, (Value, usize)>,
     /// schema key of an Option node -> template inner value
     pub opt_templates: BTreeMap<String, Value>,
+    /// schema key of a numeric leaf -> (min, max) observed over the bases (the all-zero and all-one golden vectors are
+    /// among them, so this approximates the field's representable range)
+    pub num_ranges: BTreeMap<String, (f64, f64)>,
 }
 pub struct Corpus {
     pub types: Vec<TypeCorpus>,
@@ -403,6 +406,20 @@ fn learn(v: &Value, tc: &mut TypeCorpus) {
             Value::Some(inner) => {
                 let key = schema_key(&path);
                 tc.opt_templates.entry(key).or_insert_with(|| (**inner).clone());
+            }
+            n if n.is_leaf_number() => {
+                if let Some(x) = n.as_f64() {
+                    if x.is_finite() {
+                        let key = schema_key(&path);
+                        let e = tc.num_ranges.entry(key).or_insert((x, x));
+                        if x < e.0 {
+                            e.0 = x;
+                        }
+                        if x > e.1 {
+                            e.1 = x;
+                        }
+                    }
+                }
             }
             _ => {}
         }
@@ -446,7 +463,7 @@ impl Corpus {
         let golden = crate::pool::golden_frames();
         let mut types = Vec::new();
         for row in MSG_TABLE {
-            let mut tc = TypeCorpus { number: row.number, bases: Vec::new(), seq_templates: BTreeMap::new(), opt_templates: BTreeMap::new() };
+            let mut tc = TypeCorpus { number: row.number, bases: Vec::new(), seq_templates: BTreeMap::new(), opt_templates: BTreeMap::new(), num_ranges: BTreeMap::new() };
             if let Some(m) = registry::default_message(row.number) {
                 tc.bases.push(message_to_value(&m));
             }
@@ -511,6 +528,8 @@ pub type MutOp = (u32, u8, u64);
 #[derive(Clone, Copy, Debug, PartialEq, Eq)]
 pub enum OpClass {
     FloatOffGrid,
+    FloatInRange,
+    IntInRange,
     FloatExtreme,
     FloatNonFinite,
     IntBoundary,
@@ -531,6 +550,8 @@ impl OpClass {
     pub fn name(self) -> &'static str {
         match self {
             OpClass::FloatOffGrid => "float-off-grid",
+            OpClass::FloatInRange => "float-in-observed-range",
+            OpClass::IntInRange => "int-in-observed-range",
             OpClass::FloatExtreme => "float-extreme",
             OpClass::FloatNonFinite => "float-nan-inf",
             OpClass::IntBoundary => "int-boundary",
@@ -715,16 +736,36 @@ pub fn apply_op(tree: &mut Value, tc: &TypeCorpus, op: MutOp, allow_nan: bool) -
     if cands.is_empty() {
         return OpClass::Noop;
     }
-    let path = cands[((sel as u64 * cands.len() as u64) >> 32) as usize].clone();
+    // one selector in four addresses only the structural nodes (lists, options, strings): they are few among many leaves
+    let structural: Vec<&Path> = all
+        .iter()
+        .filter(|(_, n)| matches!(n, Value::Str(_) | Value::None | Value::Some(_) | Value::Seq(_)))
+        .map(|(p, _)| p)
+        .collect();
+    let path = if arg % 4 == 0 && !structural.is_empty() {
+        structural[((sel as u64 * structural.len() as u64) >> 32) as usize].clone()
+    } else {
+        cands[((sel as u64 * cands.len() as u64) >> 32) as usize].clone()
+    };
     let key = schema_key(&path);
     let node = tree.get_mut(&path).unwrap();
+    let range = tc.num_ranges.get(&key).copied();
     match node {
         Value::F32(x) => {
+            if let (Some((lo, hi)), true) = (range, code % 4 == 3 && code >= 128) {
+                // uniform inside the observed range of that field (in range, off grid)
+                *x = (lo + (hi - lo) * Rng::new(arg).f64_unit()) as f32;
+                return OpClass::FloatInRange;
+            }
             let (y, c) = mutate_float(*x as f64, true, code, arg, allow_nan);
             *x = y as f32;
             c
         }
         Value::F64(x) => {
+            if let (Some((lo, hi)), true) = (range, code % 4 == 3 && code >= 128) {
+                *x = lo + (hi - lo) * Rng::new(arg).f64_unit();
+                return OpClass::FloatInRange;
+            }
             let (y, c) = mutate_float(*x, false, code, arg, allow_nan);
             *x = y;
             c
@@ -815,6 +856,20 @@ pub fn apply_op(tree: &mut Value, tc: &TypeCorpus, op: MutOp, allow_nan: bool) -
         other if other.is_leaf_number() => {
             let (lo, hi) = int_bounds(other);
             let cur = int_value(other);
+            if let (Some((rlo, rhi)), true) = (range, code >= 160) {
+                // inside / at the edge of the observed range of that field (field maximum, not type maximum)
+                let rlo = rlo as i128;
+                let rhi = rhi as i128;
+                let nv = match code % 5 {
+                    0 => rhi,
+                    1 => rhi - 1 - (arg % 3) as i128,
+                    2 => rhi + 1,
+                    3 => rlo,
+                    _ => rlo + (arg as i128 % (rhi - rlo + 1).max(1)),
+                };
+                set_int(other, nv);
+                return OpClass::IntInRange;
+            }
             let (nv, class) = match code % 10 {
                 0 => (0, OpClass::IntBoundary),
                 1 => (1, OpClass::IntBoundary),
